@@ -400,6 +400,80 @@ func subWriter() mon.Sub {
 // that unmasks with the peer's key and masks again with its own; a proxy that
 // peeks at the first bytes and re-masks the rest): each layer is the XOR with
 // ITS key from ITS offset 0, wherever the layer below has got to.
+// stagedSrc is a source that grows while it is read (a buffer refilled by an event loop as data arrives, a
+// file being appended to): at the end of each part it reports io.EOF once, and delivers more afterwards.
+type stagedSrc struct {
+	parts [][]byte
+	eofs  int
+}
+
+func (s *stagedSrc) Read(p []byte) (int, error) {
+	if len(s.parts) == 0 {
+		return 0, io.EOF
+	}
+	if len(s.parts[0]) == 0 {
+		s.parts = s.parts[1:]
+		s.eofs++
+		return 0, io.EOF
+	}
+	n := copy(p, s.parts[0])
+	s.parts[0] = s.parts[0][n:]
+	return n, nil
+}
+
+// subStaged: the reader keeps its running offset across a TRANSIENT end of its source.
+func subStaged() mon.Sub {
+	return mon.Sub{
+		Name: "cipher-reader-staged", Required: true,
+		N: func(t string) int {
+			if t == "thorough" {
+				return 60000
+			}
+			return 1500
+		},
+		Do: func(c *mon.C) {
+			n := 1 + c.Rng.Intn(200)
+			src := make([]byte, n)
+			c.Rng.Read(src)
+			key := keyOf(c, 3)
+			masked := ref.Mask(src, key, 0)
+			var parts [][]byte
+			var cuts []int
+			for rest := masked; len(rest) > 0; {
+				k := 1 + c.Rng.Intn(len(rest))
+				if k > 13 && c.Rng.Intn(2) == 0 {
+					k = 1 + c.Rng.Intn(13)
+				}
+				parts = append(parts, append([]byte(nil), rest[:k]...))
+				cuts = append(cuts, k)
+				rest = rest[k:]
+			}
+			st := &stagedSrc{parts: parts}
+			rd := wsutil.NewCipherReader(st, key)
+			buf := make([]byte, []int{1, 3, 4, 7, 64, 512}[c.Rng.Intn(6)])
+			var got []byte
+			c.Count(1)
+			for rounds := 0; rounds < 4*n+8; rounds++ {
+				k, err := rd.Read(buf)
+				got = append(got, buf[:k]...)
+				if err != nil && err != io.EOF {
+					c.Fail("staged/error", "CipherReader: "+err.Error(), nil)
+					return
+				}
+				if err == io.EOF && len(st.parts) == 0 {
+					break
+				}
+			}
+			if !bytes.Equal(got, src) {
+				c.Fail("staged/bytes", fmt.Sprintf("a CipherReader over a source that reported io.EOF %d times while it grew: first difference at byte %d of %d", st.eofs, firstDiff(got, src), n), map[string]interface{}{"len": n, "parts": cuts, "buf": len(buf)})
+				return
+			}
+			c.Classf("n=%s parts=%d", lenClass(n), min(len(cuts), 8))
+			c.Sample(map[string]interface{}{"len": n, "parts": cuts, "transient_eofs": st.eofs})
+		},
+	}
+}
+
 func subStacked() mon.Sub {
 	return mon.Sub{
 		Name: "stacked", Required: true,
@@ -623,9 +697,9 @@ func main() {
 		Property: "C02",
 		Level:    "exploration",
 		Rule: "cases: (a) exhaustive grid payload length {0..96,127..129,255..257,1000,4095..4097,65539} x offset {0..11, 2^16+1, 2^31+2, 2^40+3} x slice alignment 0..15 x 4 keys with 32-byte canaries, " +
-			"(b) random partitions with running offset, (c) CipherReader over chunked sources x caller buffer sizes x mid-stream Reset, (d) CipherWriter over random write partitions incl. short-write destinations, (d') cipher readers stacked on cipher readers that already delivered 0..n bytes, and writers on writers (each layer = XOR with its own key from its own offset 0), (e) the six frame mask/unmask helpers x all lengths x 4 keys, the masking helpers also on frames whose header already says masked, and all six on frames whose Header.Length is unset or stale (the payload is what gets masked). " +
+			"(b) random partitions with running offset, (c) CipherReader over chunked sources x caller buffer sizes x mid-stream Reset, (d) CipherWriter over random write partitions incl. short-write destinations, (d'') a cipher reader over a source that reports io.EOF between instalments of one payload (running offset kept), (d') cipher readers stacked on cipher readers that already delivered 0..n bytes, and writers on writers (each layer = XOR with its own key from its own offset 0), (e) the six frame mask/unmask helpers x all lengths x 4 keys, the masking helpers also on frames whose header already says masked, and all six on frames whose Header.Length is unset or stale (the payload is what gets masked). " +
 			"Non-trivial = output compared byte-for-byte with the naive XOR reference; distinct = (length, offset mod 4, alignment, key kind) / (length class, partition size, plan, buffer) classes. Built with -race (checkptr on).",
 		Assumptions: []string{"reference ref.Mask is the one-line XOR of RFC 6455 §5.3", "offsets near MaxInt are outside what a stream can reach and are not claimed"},
-		Subs:        []mon.Sub{subGrid(), subChunks(), subReader(), subWriter(), subStacked(), subFrames()},
+		Subs:        []mon.Sub{subGrid(), subChunks(), subReader(), subWriter(), subStaged(), subStacked(), subFrames()},
 	})
 }
